@@ -53,5 +53,8 @@ long sym_random ();
 #define double Sym
 #define float SymF
 #define drand48 sym_drand48
+#ifdef SYMX_SCRIPT_RANDOM
+#define random sym_random
+#endif
 
 #endif
